@@ -394,8 +394,85 @@ def b_optimised(tier):
     return b
 
 
+class Tr:
+    """A value that records how it was computed: + and * build the fully parenthesised text (so grouping and operand order are visible in the value)."""
+
+    def __init__(self, t):
+        self.t = t
+
+    def __add__(self, o):
+        return Tr(f"({self.t}+{_tt(o)})")
+
+    def __radd__(self, o):
+        return self if (isinstance(o, int) and o == 0) else Tr(f"({_tt(o)}+{self.t})")
+
+    def __mul__(self, o):
+        return Tr(f"({self.t}*{_tt(o)})")
+
+    def __rmul__(self, o):
+        return self if (isinstance(o, int) and o == 1) else Tr(f"({_tt(o)}*{self.t})")
+
+    def __eq__(self, o):
+        return isinstance(o, Tr) and self.t == o.t
+
+    def __hash__(self):
+        return hash(self.t)
+
+    def __repr__(self):
+        return f"Tr<{self.t}>"
+
+
+def _tt(o):
+    return o.t if isinstance(o, Tr) else repr(o)
+
+
+def b_grouping(tier):
+    """Parenthesised sums and products evaluated on values that record their own computation: the grouping Python's parser assigns is the grouping of the tree."""
+    import pymbolic
+    from pymbolic.interop.ast import ASTToPymbolic
+    from pymbolic.mapper.evaluator import EvaluationMapper
+    b = BoundedRun("grouping-by-tracers", rule="every parenthesisation of a o b o c and a o b o c o d for o in {+, *} and mixed, evaluated with tracer values (whose + and * build the fully "
+                   "parenthesised text): the value of the parsed tree, and of the imported tree, is the value Python's eval gives", bound="all binary bracketings of 3 and 4 operands x 8 operator choices",
+                   functions=["Parser.parse_postfix", "ASTToPymbolic"])
+
+    def bracketings(items):
+        if len(items) == 1:
+            yield items[0]
+            return
+        for i in range(1, len(items)):
+            for l_ in bracketings(items[:i]):
+                for r_ in bracketings(items[i:]):
+                    yield (l_, r_)
+
+    def render(tree, ops, counter):
+        if isinstance(tree, str):
+            return tree
+        l_ = render(tree[0], ops, counter)
+        op = ops[counter[0] % len(ops)]
+        counter[0] += 1
+        r_ = render(tree[1], ops, counter)
+        return f"({l_} {op} {r_})"
+    env = {n: Tr(n) for n in "abcd"}
+    seen = set()
+    for names in (list("abc"), list("abcd")):
+        for tree in bracketings(names):
+            for ops in (("+",), ("*",), ("+", "*"), ("*", "+"), ("+", "+", "*"), ("*", "*", "+")):
+                s_ = render(tree, ops, [0])[1:-1]        # without the outermost parentheses
+                if s_ in seen:
+                    continue
+                seen.add(s_)
+                want = outcome.run(lambda: eval(s_, {}, dict(env)))      # noqa: S307
+                for what, fn in (("parse", lambda: EvaluationMapper(dict(env))(pymbolic.parse(s_))), ("import", lambda: EvaluationMapper(dict(env))(ASTToPymbolic()(ast.parse(s_, mode="eval").body)))):
+                    got = outcome.run(fn)
+                    b.case((what, s_), sample=dict(string=s_))
+                    if got != want:
+                        b.fail(Failure("grouping-by-tracers", f"what={what}-grouping-differs string={s_!r}", dict(kind="group", string=s_), expected=outcome.describe(want)[:120], actual=outcome.describe(got)[:120],
+                                       functions=["Parser.parse_postfix" if what == "parse" else "ASTToPymbolic"]))
+    return b
+
+
 def bounded(tier, seed, procs):
-    return [b_skeletons(tier, seed), b_ternary_postfix(tier, seed), b_random(tier, seed), b_malformed(tier), b_identifiers(tier), b_optimised(tier)]
+    return [b_skeletons(tier, seed), b_ternary_postfix(tier, seed), b_random(tier, seed), b_malformed(tier), b_identifiers(tier), b_optimised(tier), b_grouping(tier)]
 
 
 # ----------------------------------------------------------------------------- proved kernel: binding-power table
